@@ -208,6 +208,15 @@ func mapFieldOf(v ssa.Value) (*types.Var, ssa.Value) {
 
 // ---------------------------------------------------------------- IMMUT
 
+func containsStr(xs []string, x string) bool {
+	for _, y := range xs {
+		if y == x {
+			return true
+		}
+	}
+	return false
+}
+
 func ruleImmut(w *World, r *Run, rule string, fs []fieldRef) {
 	for _, f := range fs {
 		fv := w.structField(f.pkg, f.typ, f.field)
@@ -267,9 +276,12 @@ var immutExceptions = map[string]string{
 	pInmem + ".readWriter.toStore": "scratch copy of the value handed to Set; never read back by another request (checked: only Set touches it)",
 }
 
-func immutCoreFields(w *World, r *Run, rule string) []fieldRef {
+func immutCoreFields(w *World, r *Run, rule string, only ...string) []fieldRef {
 	var out []fieldRef
 	for _, tn := range immutTypes {
+		if len(only) > 0 && !containsStr(only, tn[1]) {
+			continue
+		}
 		o := w.lookup(tn[0], tn[1])
 		if o == nil {
 			r.Info(rule, tn[0]+"."+tn[1], "", "type no longer present (renamed?): its fields are not covered by the immutability rule")
@@ -287,7 +299,7 @@ func immutCoreFields(w *World, r *Run, rule string) []fieldRef {
 			out = append(out, fieldRef{tn[0], tn[1], f.Name()})
 		}
 	}
-	if len(out) < 10 {
+	if len(out) < 10 && len(only) == 0 || len(out) == 0 {
 		r.Undecided(rule, "immutable configuration types", "", fmt.Sprintf("only %d fields found", len(out)))
 	}
 	return out
